@@ -135,8 +135,14 @@ func init() {
 						_, dur = b.(tally.DurationBuckets)
 					} else if dur {
 						bk = tally.DurationBuckets{time.Second, time.Millisecond, time.Second}
+						if rng.Intn(4) == 0 {
+							bk = tally.DurationBuckets{} // an explicitly empty list: one catch-all bucket
+						}
 					} else {
 						bk = tally.ValueBuckets{2, 1, 2, -1}
+						if rng.Intn(4) == 0 {
+							bk = tally.ValueBuckets{}
+						}
 					}
 					hg := s.s.Histogram(m+"h", bk)
 					if _, ok := hspecs[id]; !ok {
@@ -160,9 +166,9 @@ func init() {
 						d := []time.Duration{0, time.Millisecond, time.Millisecond + 1, time.Second, time.Hour}[rng.Intn(5)]
 						hg.RecordDuration(d)
 						up := time.Duration(math.MaxInt64)
-						for _, b := range []time.Duration{time.Millisecond, time.Second} {
-							if b >= d {
-								up = b
+						for _, pr := range tally.BucketPairs(hspecs[id]) { // the bucket whose upper bound is the first >= the sample
+							if pr.UpperBoundDuration() >= d {
+								up = pr.UpperBoundDuration()
 								break
 							}
 						}
@@ -171,9 +177,9 @@ func init() {
 						v := []float64{-5, -1, 0, 1, 1.5, 2, 9}[rng.Intn(7)]
 						hg.RecordValue(v)
 						up := math.MaxFloat64
-						for _, b := range []float64{-1, 1, 2} {
-							if b >= v {
-								up = b
+						for _, pr := range tally.BucketPairs(hspecs[id]) {
+							if pr.UpperBoundValue() >= v {
+								up = pr.UpperBoundValue()
 								break
 							}
 						}
